@@ -6,6 +6,7 @@ cd "$(dirname "$0")/.."
 OUT=seeded/MATRIX.txt
 [ $# -eq 0 ] && : > $OUT
 for d in ${*:-$(ls seeded | grep -v MATRIX)}; do
+  if grep -q "\"status\": \"superseded\"" seeded/$d/meta.json 2>/dev/null; then echo "$d own-check=superseded (see meta.json)" | tee -a $OUT; continue; fi
   P=$(echo $d | cut -c1-3)
   R=$(tools/try_patch.sh seeded/$d/patch.diff $P 2>&1 | grep -E "^VIOLATION|->" | tr '\n' ' ' | cut -c1-260)
   case "$R" in
